@@ -2042,11 +2042,24 @@ def stage_mci_glr(work, tier, seed):
     maxlen = 4 if tier == "quick" else 6
     cases = []
     gtext = {}
-    for gid, g, tags in corpus(tier, seed):
-        if "meta" in tags or len(g["terms"]) > (3 if tier == "quick" else 4):
+    # the exploration visits every token string up to maxlen: about nterm^maxlen states per
+    # table, each a whole GLR frontier.  A budget on that estimate keeps the stage within
+    # minutes: curated and structured grammars first, then a seeded sample of the others.
+    budget = 400000 if tier == "quick" else 2500000
+    cand = [c for c in corpus(tier, seed)
+            if "meta" not in c[2] and len(c[1]["terms"]) <= (3 if tier == "quick" else 4)
+            and tab["nodis"].get("%s|rn" % c[0]) is not None]
+    first = [c for c in cand if "curated" in c[2]]
+    rest = [c for c in cand if "curated" not in c[2]]
+    random.Random(seed * 97 + 3).shuffle(rest)
+    chosen = []
+    for c in first + rest:
+        cost = sum(max(1, len(c[1]["terms"])) ** k for k in range(maxlen + 1))
+        if cost > budget:
             continue
-        if tab["nodis"].get("%s|rn" % gid) is None:
-            continue
+        budget -= cost
+        chosen.append(c)
+    for gid, g, tags in chosen:
         text = G.render(g)
         cid = "%s|rn" % gid
         gtext[cid] = text
